@@ -39,7 +39,9 @@ def run(chk):
                    "Token::%s is classified whitespace=%s, must be %s" % (v["name"], got, want), where(iw), sample={"token": v["name"], "whitespace": got})
         chk.floor("C14.floor/tokens", len(toks["variants"]), 80, "Token variants examined", where(iw))
     pt = chk.anchor("C14.anchor/prepare_tokens", f.fn("prepare_tokens", "rssl_preprocess"), "prepare_tokens")
-    if pt and iw:
+    if pt and iw and toks and rule_prepare_eval(chk, pt, toks):
+        pass
+    elif pt and iw:
         ok = False
         for cb in f.closures_of(pt["path"]):
             for n in F.exprs(cb["thir"], "If"):
@@ -59,7 +61,8 @@ def run(chk):
         ok = any(c.get("fn") == iw["path"] for cb in f.closures_of(cp["path"]) for c in F.exprs(cb["thir"], "Call"))
         chk.ob("C14.ws/condition-filter", ok, "#if conditions are filtered with is_whitespace()" if ok else "the #if condition parser no longer filters trivia with is_whitespace()", where(cp))
     rule_adj(chk)
-    rule_comment_scan(chk)
+    if not rule_comment_eval(chk):
+        rule_comment_scan(chk)
     rule_uniform_trivia(chk)
     rule_line(chk, ip)
 
@@ -210,6 +213,107 @@ def rule_line(chk, ip):
                "write_message no longer derives the printed position from get_file_location", where(wm))
         unk = any(x.get("k") == "Const" and short(x["path"]) == "UNKNOWN" for x in F.walk(wm["thir"]))
         chk.ob("C14.diag/unknown-only", unk, "the position is omitted only for SourceLocation::UNKNOWN" if unk else "the UNKNOWN test around the position is gone", where(wm))
+
+
+def rule_prepare_eval(chk, pt, toks):
+    """prepare_tokens read as a function of the token list: a list holding one token of every kind (in declaration
+    order, and again reversed, and with runs of trivia at both ends) comes out as exactly its non-trivia tokens, in
+    order, each at the location it started at, followed by one Eof. True when readable (the shape rule is the fallback)."""
+    f = chk.facts
+    kinds = [v for v in toks["variants"] if v["name"] not in ("MacroArg",)]
+
+    def mk(v, at):
+        return I.Enum("PreprocessToken", None, {"0": I.Enum("Token", v["name"], {str(i): "payload %d" % at for i in range(len(v["fields"]))}),
+                                                "1": I.Enum("PreprocessTokenData", None, {"start_location": I.Enum("SourceLocation", None, {"0": at}), "end_location": I.Enum("SourceLocation", None, {"0": at + 1})})})
+    ws = [v for v in kinds if v["name"] in WS]
+    orders = [kinds, kinds[::-1], ws + kinds + ws, ws, []]
+    bad = None
+    for order in orders:
+        src = [mk(v, 10 + 3 * i) for i, v in enumerate(order)]
+        want = [(v["name"], 10 + 3 * i) for i, v in enumerate(order) if v["name"] not in WS]
+        ip = I.Interp(f, max_depth=8)
+        ip.max_loop = 1024
+        try:
+            r = ip.apply(pt, [src])
+        except I.Unknown as e:
+            if "panicking" in str(e):
+                bad = bad or "prepare_tokens aborts on a list of %d tokens (%s)" % (len(src), str(e)[:60])
+                continue
+            chk.note("C14.ws/prepare_tokens: not readable (%s); the shape rule decides" % str(e)[:80])
+            return False
+        if not isinstance(r, list) or not all(isinstance(t, I.Enum) and isinstance(t.fields.get("0"), I.Enum) for t in r):
+            chk.note("C14.ws/prepare_tokens: result not readable; the shape rule decides")
+            return False
+        got = [(t.fields["0"].variant, t.fields["1"].fields.get("0") if isinstance(t.fields.get("1"), I.Enum) else None) for t in r]
+        body, last = got[:-1], got[-1:] if got else []
+        if [g[0] for g in body] != [w[0] for w in want]:
+            missing = [w[0] for w in want if w[0] not in [g[0] for g in body]]
+            extra = [g[0] for g in body if g[0] not in [w[0] for w in want]]
+            bad = bad or ("prepare_tokens hands the parser %s" % ("trivia tokens %s" % extra if extra else "a list without %s" % missing if missing else "the tokens in another order"))
+        elif body != want:
+            k = [i for i in range(len(want)) if body[i] != want[i]][0]
+            bad = bad or "prepare_tokens places %s at location %r, it starts at %r" % (want[k][0], body[k][1], want[k][1])
+        if [g[0] for g in last] != ["Eof"]:
+            bad = bad or "prepare_tokens ends the list with %s, must be one Eof" % ([g[0] for g in last],)
+    chk.ob("C14.ws/prepare_tokens", bad is None, bad or "drops exactly the trivia tokens, keeps order and start locations (%d lists)" % len(orders), where(pt), sample={"lists": len(orders), "token_kinds": len(kinds)})
+    chk.ob("C14.ws/prepare_tokens-appends-eof", True, "decided with C14.ws/prepare_tokens", where(pt), trivial=True)
+    return True
+
+
+COMMENT_TEXTS = {
+    # text -> what is left after the comment (None: the comment never ends, the lexer must refuse; "not a comment")
+    "block_comment": [("/* x */ y", " y"), ("/*/ x */y", "y"), ("/**/x", "x"), ("/***/x", "x"), ("/* a * / b */c", "c"), ("/* a */ /* b */z", " /* b */z"), ("/* // */q", "q"),
+                      ("/*\n line 2\n*/\nr", "\nr"), ("/* unterminated", None), ("/*", None), ("/*/", None), ("/* *", None), ("/ *x*/", "not a comment"), ("x/* */", "not a comment")],
+    "line_comment": [("// c\nx", "\nx"), ("//\nx", "\nx"), ("// c", ""), ("//", ""), ("// c \\\n still\nx", "\nx"), ("// a\r\nx", "\r\nx"), ("//*x*/\ny", "\ny"), ("// /* \n */", "\n */"),
+                     ("/ /x\n", "not a comment"), ("x// c\n", "not a comment")],
+}
+
+
+def rule_comment_eval(chk):
+    """line_comment / block_comment read as functions of the bytes: on model texts (the opener's own bytes next to a
+    terminator byte - `/*/`, `/**/` -, stars and slashes inside, several comments, line splices and CR LF in a line comment,
+    unterminated comments, near misses) the comment is ONE Token::Comment from its opener to its terminator and what is
+    left is exactly the text after it; a block comment that never ends is refused; text that does not start with the
+    opener is not a comment. True when readable; rule_comment_scan (shape) is the fallback."""
+    f = chk.facts
+    ip = I.Interp(f, max_depth=12)
+    ip.max_loop = 4096
+    fns = {name: f.fn(name, "rssl_preprocess") for name in COMMENT_TEXTS}
+    if not all(fns.values()):
+        return False
+    res = {}
+    n = 0
+    for name, cases in COMMENT_TEXTS.items():
+        bad = None
+        for text, want in cases:
+            try:
+                r = ip.apply(fns[name], [list(text.encode())])
+            except I.Unknown as e:
+                if "panicking" in str(e):
+                    bad = bad or "%s aborts on %r (%s)" % (name, text, str(e)[:60])
+                    n += 1
+                    continue
+                chk.note("C14.comment: %s is not readable on %r (%s); the shape rules decide" % (name, text, str(e)[:80]))
+                return False
+            n += 1
+            if isinstance(r, I.Enum) and r.variant == "Ok" and isinstance(r.fields.get("0"), tuple) and isinstance(r.fields["0"][0], (list, tuple)) and isinstance(r.fields["0"][1], I.Enum):
+                rest, tk = bytes(r.fields["0"][0]).decode("utf-8", "replace"), r.fields["0"][1].variant
+                got = rest if tk == "Comment" else "not a comment"
+            elif isinstance(r, I.Enum) and r.variant == "Err":
+                got = None if want is None or want != "not a comment" else "not a comment"      # (a near miss may also be refused by the fallback lexer)
+            else:
+                chk.note("C14.comment: the result of %s on %r is not readable (%r); the shape rules decide" % (name, text, r))
+                return False
+            if got != want:
+                say = lambda v: "no comment token" if v == "not a comment" else ("the comment is refused as unterminated" if v is None else "one comment token followed by %r" % v)
+                bad = bad or "%s reads %r as: %s; must be: %s" % (name, text, say(got), say(want))
+        res[name] = bad
+    for name, bad in res.items():
+        chk.ob("C14.comment/%s/model" % name, bad is None, bad or "%d texts: one comment token from the opener to the terminator" % len(COMMENT_TEXTS[name]), where(fns[name]), sample={"texts": len(COMMENT_TEXTS[name])})
+        for k in ("opener", "scan-after-opener", "token") + (("terminator",) if name == "block_comment" else ()):
+            chk.ob("C14.comment/%s/%s" % (name, k), True, "decided by C14.comment/%s/model" % name, where(fns[name]), trivial=True)
+    chk.floor("C14.floor/comment-texts", n, 20, "comment texts evaluated")
+    return True
 
 
 def rule_comment_scan(chk):
